@@ -531,3 +531,21 @@ Proof.
   assert (E : ilog2 (inject_Z (2 ^ 53 + 1)) = 53%Z) by (vm_compute; reflexivity). rewrite E in Hm.
   unfold ulp_at, two_pow in Hm. cbn in Hm. unfold Qeq in Hm. cbn in Hm. lia.
 Qed.
+
+(* ---------- sign symmetry: nextafter(-x, +inf) = -nextafter(x, -inf) ---------- *)
+Lemma succ64_opp x : succ64 (- x) == - pred64 x.
+Proof.
+  destruct (sign_cases x) as [H|[H|H]].
+  - rewrite (succ64_zero (- x)) by lra. rewrite (pred64_zero x H). ring.
+  - rewrite (succ64_neg (- x)) by lra. rewrite (pred64_pos x H).
+    rewrite (pred_pos_compat (- - x) x) by lra. reflexivity.
+  - rewrite (succ64_pos (- x)) by lra. rewrite (pred64_neg x H). ring.
+Qed.
+Lemma pred64_opp x : pred64 (- x) == - succ64 x.
+Proof.
+  destruct (sign_cases x) as [H|[H|H]].
+  - rewrite (pred64_zero (- x)) by lra. rewrite (succ64_zero x H). reflexivity.
+  - rewrite (pred64_neg (- x)) by lra. rewrite (succ64_pos x H).
+    rewrite (ilog2_compat (- - x) x) by lra. ring.
+  - rewrite (pred64_pos (- x)) by lra. rewrite (succ64_neg x H). ring.
+Qed.
